@@ -46,6 +46,9 @@ func init() {
 		{Name: "window size computed into a local before use", Kill: false, File: fPlot,
 			Old: "\t\tendPoint := startPoint + calcWindowSize() // slide windows defined by [start, end)\n\t\tlogging.CPrint(logging.DEBUG, \"assign hashMapA",
 			New: "\t\twsz := calcWindowSize()\n\t\tendPoint := startPoint + wsz // slide windows defined by [start, end)\n\t\tlogging.CPrint(logging.DEBUG, \"assign hashMapA"},
+		{Name: "plotter tests wouldMining before completeness (seed C10-r2c)", Kill: true, Rule: "C10-KEEPER", File: fCapPlotter,
+			Old: "\t\tif ws.Progress() < 100 {\n\t\t\tchangeState(engine.Plotting, engine.Registered)\n\t\t} else {\n\t\t\tif qws.wouldMining {\n\t\t\t\tchangeState(engine.Plotting, engine.Mining)\n\t\t\t} else {\n\t\t\t\tchangeState(engine.Plotting, engine.Ready)\n\t\t\t}\n\t\t}\n",
+			New: "\t\tswitch {\n\t\tcase qws.wouldMining:\n\t\t\tchangeState(engine.Plotting, engine.Mining)\n\t\tcase ws.Progress() < 100:\n\t\t\tchangeState(engine.Plotting, engine.Registered)\n\t\tdefault:\n\t\t\tchangeState(engine.Plotting, engine.Ready)\n\t\t}\n"},
 	}
 	variants["C07"] = []variant{
 		{Name: "GetProof skips the verification result when filter is off", Kill: true, Rule: "C07-VERIFY", File: fMassDBV1,
